@@ -377,7 +377,7 @@ def check_path(rep, f, t, names, n_t, s_t, cond_txt, subst_s, n_is_one, unknown_
         fx = Rat(psub_atom(fx.num, 's', subst_s), psub_atom(fx.den, 's', subst_s))
     txt = '(%s) / (%s)' % (pshow(fx.num), pshow(fx.den))
     # coverage: indices lo..n-1 with lo in {0, 1}; index 0 explicit when lo == 1
-    lo_ok = lo in (C(0), C(1)) and hi == n_t and (lo == C(0) or 0 in lm.points or lm.default is not None)
+    lo_ok = lo in (C(0), C(1)) and affine_equal(hi, n_t) and (lo == C(0) or 0 in lm.points or lm.default is not None)
     rep.check(lo_ok, 'C17.R1', w, 'the formula covers every entry after the first (x = 1 .. n-1) [%s]' % cond_txt, got='x in range(%s, %s)' % (show(lo), show(hi)), want='range(1, n)',
               construct='formula range(%s, %s)' % (show(lo), show(hi)))
     # affine in x
